@@ -90,7 +90,6 @@ pub open spec fn slots_total(fns: Seq<grammar::Function>, size: Option<usize>) -
 }
 /// the lookup scope of a module: its own path followed by its `use`s in order (C11)
 pub open spec fn module_scope(m: &crate::semantic::Module) -> Seq<ItemPath> { seq![m.path] + m.ast.uses@ }
-pub uninterp spec fn fn_built(reg: &TypeRegistry, scope: Seq<ItemPath>, is_vfunc: bool, gf: grammar::Function, out: Function) -> bool;
 
 /// the slot table of C04: function k sits in slot_pos(k) and is the semantic image of declaration k,
 /// every slot between two functions and after the last one is a placeholder `_vfunc_<slot>`
@@ -98,5 +97,74 @@ pub open spec fn slots_ok(reg: &TypeRegistry, scope: Seq<ItemPath>, fns: Seq<gra
     &&& slot_end(fns, k) == Some(out.len())
     &&& forall|j: int| 0 <= j < k ==> 0 <= #[trigger] slot_pos(fns, j) < out.len() && fn_built(reg, scope, true, fns[j], out[slot_pos(fns, j)])
     &&& forall|j: int, s: int| #![trigger slot_pos(fns, j), out[s]] 0 <= j < k && slot_end(fns, j)->0 <= s < slot_pos(fns, j) ==> is_placeholder(out[s], s as nat)
+}
+}
+verus!{
+// ---------- function vocabulary (C05 C16 C17) ----------
+pub open spec fn spec_cc_from_str(s: Seq<char>) -> Option<CallingConvention> {
+    if s == "C"@ { Some(CallingConvention::C) }
+    else if s == "cdecl"@ { Some(CallingConvention::Cdecl) }
+    else if s == "stdcall"@ { Some(CallingConvention::Stdcall) }
+    else if s == "fastcall"@ { Some(CallingConvention::Fastcall) }
+    else if s == "thiscall"@ { Some(CallingConvention::Thiscall) }
+    else if s == "vectorcall"@ { Some(CallingConvention::Vectorcall) }
+    else if s == "system"@ { Some(CallingConvention::System) }
+    else { None }
+}
+pub open spec fn spec_cc_as_str(c: CallingConvention) -> Seq<char> {
+    match c {
+        CallingConvention::C => "C"@,
+        CallingConvention::Cdecl => "cdecl"@,
+        CallingConvention::Stdcall => "stdcall"@,
+        CallingConvention::Fastcall => "fastcall"@,
+        CallingConvention::Thiscall => "thiscall"@,
+        CallingConvention::Vectorcall => "vectorcall"@,
+        CallingConvention::System => "system"@,
+    }
+}
+/// documented default: thiscall with a receiver, system without
+pub open spec fn default_cc(has_self: bool) -> CallingConvention {
+    if has_self { CallingConvention::Thiscall } else { CallingConvention::System }
+}
+pub open spec fn arg_is_self(a: Argument) -> bool { a is ConstSelf || a is MutSelf }
+pub open spec fn has_self(args: Seq<Argument>) -> bool { exists|i: int| 0 <= i < args.len() && arg_is_self(#[trigger] args[i]) }
+pub open spec fn vis_of(v: grammar::Visibility) -> Visibility {
+    match v { grammar::Visibility::Public => Visibility::Public, grammar::Visibility::Private => Visibility::Private }
+}
+/// argument k of the semantic function is declaration k: receivers keep their kind, a named argument keeps
+/// its name and gets the type its written type resolves to
+pub open spec fn arg_built(reg: &TypeRegistry, scope: Seq<ItemPath>, ga: grammar::Argument, a: Argument) -> bool {
+    match ga {
+        grammar::Argument::ConstSelf => a == Argument::ConstSelf,
+        grammar::Argument::MutSelf => a == Argument::MutSelf,
+        grammar::Argument::Named(n, t) => a is Field && a->Field_0 == n.0 && Some(a->Field_1) == spec_resolve_type(reg, scope, t),
+    }
+}
+/// some attribute among the first k is `name(..)` with any arguments
+pub open spec fn has_fn(attrs: Seq<Attribute>, name: Seq<char>, k: int) -> bool
+    decreases k
+{
+    if k <= 0 { false } else { (attrs[k - 1] is Function && attrs[k - 1]->Function_0.0@ == name) || has_fn(attrs, name, k - 1) }
+}
+/// the semantic image of a declared function (C05: address, arguments in order, return type; C16: convention;
+/// C17: visibility, doc)
+pub open spec fn fn_built(reg: &TypeRegistry, scope: Seq<ItemPath>, is_vfunc: bool, gf: grammar::Function, out: Function) -> bool {
+    let attrs = gf.attributes.0@;
+    let n = attrs.len() as int;
+    &&& out.visibility == vis_of(gf.visibility)
+    &&& out.name == gf.name.0
+    &&& opt_string_view(out.doc) == spec_doc(attrs)
+    &&& (match attr_int(attrs, "address"@, n) {
+            Some(a) => !is_vfunc && a >= 0 && out.body == (FunctionBody::Address { address: a as usize }),
+            None => is_vfunc && out.body == (FunctionBody::Vftable { function_name: gf.name.0 }),
+        })
+    &&& (has_fn(attrs, "index"@, n) ==> is_vfunc)
+    &&& out.arguments@.len() == gf.arguments@.len()
+    &&& (forall|i: int| 0 <= i < gf.arguments@.len() ==> arg_built(reg, scope, gf.arguments@[i], #[trigger] out.arguments@[i]))
+    &&& (match gf.return_type { None => out.return_type is None, Some(t) => out.return_type is Some && out.return_type == spec_resolve_type(reg, scope, t) })
+    &&& (match attr_str(attrs, "calling_convention"@, n) {
+            Some(s) => Some(out.calling_convention) == spec_cc_from_str(s@),
+            None => out.calling_convention == default_cc(has_self(out.arguments@)),
+        })
 }
 }
